@@ -89,7 +89,7 @@ Theorem C12_pure_expression_any_context : forall e, pure e = true ->
       | Ok x => exists m' r', steps rr (List.length code) (St v mid m) r = SNext (St v mid m') r' /\
                   msame (m_sp m) m m' /\ r_ctx r' = r_ctx r /\ r_ip r' = ncs s' /\
                   (ForbidTemp fl = true -> r_tmp r' = r_tmp r) /\ opnd v (m_sp m) K A x m' r'
-      | Fail err => exists v' ip vals, steps rr (List.length code) (St v mid m) r = SErr v' (r_ctx r) ip err vals
+      | Fail err => exists me ip vals, steps rr (List.length code) (St v mid m) r = SErr (St v mid me) (r_ctx r) ip err vals
       end.
 Proof. exact comp_pure_spec. Qed.
 Print Assumptions C12_pure_expression_any_context.
